@@ -65,7 +65,7 @@ CLAIMS.update({
          "Correspondence: five enum modes (mixed, every variant has a message = no wildcard, none, all documented, all detailed) x kinds x generics x 0..4 doc lines with varied leading whitespace and special characters x naming x 17 styles x disabled.",
          "DESIGN.md §6 C14", "EnumMessage on an empty enum does not compile (`match self {}` on a reference) and has no value to call the methods on; excluded."),
  'C15': ("Lean 4 proof: getter = first declared (key, type) entry of the variant, None otherwise; iff under per-variant key uniqueness; correspondence with compiled derives",
-         "lean/StrumProofs/C15.lean: get_spec, get_type, get_iff, int_unchanged. Correspondence: 0..6 properties per variant over 1..3 props(..) groups, keys shared across variants and types, keyword keys, "
+         "lean/StrumProofs/Collect.lean (attribute collection as written -> abstract variant: collected_spec, props_groups_merge: ALL props(..) groups merge in source order whatever sits between them); lean/StrumProofs/C15.lean: get_spec, get_type, get_iff, int_unchanged. Correspondence: 0..6 properties per variant over 1..3 props(..) groups, keys shared across variants and types, keyword keys, "
          "i64::MIN / MAX / negative integers, disabled variants; every key declared anywhere in the enum plus case / prefix / whitespace / r# variations and random strings through all three getters.",
          "DESIGN.md §6 C15", "The merge of several props(..) groups happens in syn-level attribute collection (variant_props.rs:155-157), exercised by every corpus item with more than one group; the model starts from the merged list."),
 })
@@ -92,7 +92,7 @@ CLAIMS.update({
 CLAIMS.update({
  'C20': ("Lean 4 proof: each rejection rule x applicable derive => reject, never panic, domain => accept, over a raw-attribute model of every derive's checks; mode-A class correspondence + mode-B rustc diagnostics",
          "lean/StrumProofs/C20.lean: rejects (one statement: every rule x every derive it applies to => reject, with the applicability matrix `applies`), validate_reject_iff, never_panics, accepts_domain, rejects_non_enum (R1), rejects_data_variant_array/_table (R2), rejects_lifetime (R3), rejects_enum_attr / rejects_variant_attr / rejects_field_default_with (R4, R8), "
-         "rejects_defaults (R5, R6), rejects_transparent_shape / rejects_default_shape_display (R6), rejects_unit_placeholder (R7), rejects_half_parse_err (R9), rejects_prop_literal (R10); F6/F7 witnesses on the pinned behaviour. "
+         "rejects_defaults (R5, R6), rejects_transparent_shape / rejects_default_shape_display (R6), rejects_unit_placeholder (R7), rejects_half_parse_err (R9), rejects_prop_literal (R10); F6/F7 witnesses on the pinned behaviour; lean/StrumProofs/Collect.lean: collectVariant_error_iff (get_variant_properties fails iff a single-use item is written twice), collectVariant_ok (otherwise = fold of the updates), collect_regroup / collect_swap (splitting into #[strum(..)] lists and the order of independent items are irrelevant). "
          "Correspondence: ~1600 items (every rule x every derive x positions x within/across attributes, plus in-domain controls): mode A runs the macro's *_inner functions in-process (ok / err / panic vs validate); "
          "mode B compiles rejected and accepted items in two crates with the real derives (incl. FromRepr) and reads rustc's JSON diagnostics per item file.",
          "DESIGN.md §6 C20", "Partial: 'reported at the offending item' is checked as 'an error whose span lies in the item's file' on the sampled items; the model distinguishes accept / reject / panic only, not message wording. syn's parsing of attribute syntax is exercised, not modelled."),
